@@ -34,24 +34,24 @@ Proof.
   rewrite <- (map_id data) at 2. apply map_ext_in. intros row Hin. apply zslice_all. apply Hw; exact Hin.
 Qed.
 
-(* scanning a window_result again with the same selection predicate returns the full frame *)
-Lemma window_fixed_point (stop : xv -> bool) (sel : Z -> Z -> Prop) rows cols src ys xs t b l r out ys' xs' :
-  (forall y x, 0 <= y < Z.of_nat rows -> 0 <= x < Z.of_nat cols -> (stop (cell src y x) = true <-> sel y x)) ->
+(* scanning again — over any raster [scanned'] that agrees with the selection predicate at the window's
+   positions — returns the full frame of a window_result and slices nothing away *)
+Lemma window_fixed_point_gen (stop : xv -> bool) (sel : Z -> Z -> Prop) rows cols src ys xs t b l r out ys' xs' scanned' :
+  (forall i j, 0 <= i <= b - t -> 0 <= j <= r - l -> (stop (cell scanned' i j) = true <-> sel (t + i) (l + j))) ->
   window_result rows cols sel src ys xs t b l r out ys' xs' ->
-  window_of (bounds stop (Z.to_nat (b - t + 1)) (Z.to_nat (r - l + 1)) out) out ys' xs' =
+  window_of (bounds stop (Z.to_nat (b - t + 1)) (Z.to_nat (r - l + 1)) scanned') out ys' xs' =
     (0, b - t, 0, r - l, out, ys', xs').
 Proof.
   intros Hsel W. unfold window_result in W.
   destruct W as (Htb & Hb & Hlr & Hr & _ & (xt & Hxt & St) & (xb & Hxb & Sb) & (yl & Hyl & Sl) & (yr & Hyr & Sr) &
-                 Hlen & Hrow & Hcell & Hly & _ & Hlx & _).
+                 Hlen & Hrow & _ & Hly & _ & Hlx & _).
   set (rows' := Z.to_nat (b - t + 1)). set (cols' := Z.to_nat (r - l + 1)).
   assert (Er : Z.of_nat rows' = b - t + 1) by (unfold rows'; lia).
   assert (Ec : Z.of_nat cols' = r - l + 1) by (unfold cols'; lia).
   assert (K : forall i j, 0 <= i <= b - t -> 0 <= j <= r - l -> sel (t + i) (l + j) ->
-                          kept stop (cell out) rows' cols' i j).
-  { intros i j Hi Hj S. unfold kept. split; [lia|]. split; [lia|].
-    rewrite Hcell by lia. apply Hsel; [lia|lia|exact S]. }
-  destruct (bounds_full_frame stop (cell out) rows' cols') as (E1 & E2 & E3 & E4).
+                          kept stop (cell scanned') rows' cols' i j).
+  { intros i j Hi Hj S. unfold kept. split; [lia|]. split; [lia|]. apply Hsel; [lia|lia|exact S]. }
+  destruct (bounds_full_frame stop (cell scanned') rows' cols') as (E1 & E2 & E3 & E4).
   - exists (xt - l). apply K; try lia. replace (t + 0) with t by lia. replace (l + (xt - l)) with xt by lia. exact St.
   - exists (xb - l). rewrite Er. apply K; try lia.
     replace (t + (b - t + 1 - 1)) with b by lia. replace (l + (xb - l)) with xb by lia. exact Sb.
@@ -63,6 +63,18 @@ Proof.
     pose proof (slice2_all (b - t + 1) (r - l + 1) out Hlen Hrow) as S2.
     replace (b - t + 1 - 1) with (b - t) in S2 by lia. replace (r - l + 1 - 1) with (r - l) in S2 by lia.
     rewrite S2. rewrite (zslice_all (b - t + 1) ys' Hly). rewrite (zslice_all (r - l + 1) xs' Hlx). reflexivity.
+Qed.
+
+(* the scanned raster is the result itself (trim; crop with zones = values) *)
+Lemma window_fixed_point (stop : xv -> bool) (sel : Z -> Z -> Prop) rows cols src ys xs t b l r out ys' xs' :
+  (forall y x, 0 <= y < Z.of_nat rows -> 0 <= x < Z.of_nat cols -> (stop (cell src y x) = true <-> sel y x)) ->
+  window_result rows cols sel src ys xs t b l r out ys' xs' ->
+  window_of (bounds stop (Z.to_nat (b - t + 1)) (Z.to_nat (r - l + 1)) out) out ys' xs' =
+    (0, b - t, 0, r - l, out, ys', xs').
+Proof.
+  intros Hsel W. apply (window_fixed_point_gen stop sel rows cols src ys xs); [|exact W].
+  destruct W as (Htb & Hb & Hlr & Hr & _ & _ & _ & _ & _ & _ & _ & Hcell & _).
+  intros i j Hi Hj. rewrite Hcell by lia. apply Hsel; lia.
 Qed.
 
 (* trim(trim(r)) = trim(r): bounds are the whole frame; cells and both coordinate vectors unchanged *)
@@ -96,4 +108,23 @@ Proof.
   apply (window_fixed_point (crop_stop ids) (fun y x => In (cell zones y x) ids /\ cell zones y x <> XNaN)
                             rows cols zones ys xs); [|exact W].
   intros y x _ _. apply crop_stop_spec.
+Qed.
+
+(* crop with a separate values raster (same shape as zones): cropping the window of zones / the cropped values
+   by the same ids again changes nothing *)
+Lemma crop_idempotent ids rows cols zones values ys xs :
+  length zones = rows -> rect rows cols values -> length ys = rows -> length xs = cols ->
+  (exists y x, 0 <= y < Z.of_nat rows /\ 0 <= x < Z.of_nat cols /\ (In (cell zones y x) ids /\ cell zones y x <> XNaN)) ->
+  forall t b l r out ys' xs',
+    crop_model ids rows cols zones values ys xs = (t, b, l, r, out, ys', xs') ->
+    crop_model ids (Z.to_nat (b - t + 1)) (Z.to_nat (r - l + 1)) (slice2 t b l r zones) out ys' xs' =
+      (0, b - t, 0, r - l, out, ys', xs').
+Proof.
+  intros Hz Hr Hy Hx Hex t b l r out ys' xs' E.
+  pose proof (crop_model_spec ids rows cols zones values ys xs Hr Hy Hx Hex _ _ _ _ _ _ _ E) as W.
+  unfold crop_model.
+  apply (window_fixed_point_gen (crop_stop ids) (fun y x => In (cell zones y x) ids /\ cell zones y x <> XNaN)
+                                rows cols values ys xs); [|exact W].
+  destruct W as (Htb & Hb & Hlr & Hrr & _).
+  intros i j Hi Hj. rewrite slice2_cell by (unfold lenZ; lia). apply crop_stop_spec.
 Qed.
